@@ -42,6 +42,9 @@ def _clauses(n, explicit):
     ens = [("C12.empty_combination_has_no_effect", "self._combination_outcomes[0] == 0")]
     # the cached programs are a permutation of the programs, in order of decreasing distance from baseline
     ens.append(("C12.cache_holds_every_program_once", "sorted(self._cached_progs.keys()) == sorted(names)"))
+    if n >= 2:
+        # (the additive and nested interactions fill coverage in this order: the strongest program first)
+        ens.append(("C12.programs_are_cached_in_order_of_decreasing_distance_from_baseline", " and ".join("abs(self._deltas[%d]) >= abs(self._deltas[%d])" % (i, i + 1) for i in range(n - 1))))
     ens.append(("C12.cached_delta_is_outcome_minus_baseline",
                 " and ".join("self._deltas[%d] == self._cached_progs[list(self._cached_progs.keys())[%d]] - self.baseline" % (i, i) for i in range(n))))
     ens.append(("C12.cached_values_are_the_program_outcomes",
